@@ -147,6 +147,24 @@ def add_dyn(tr, repo: Path, spec: dict) -> None:
     py2v.DYN_SINGLETONS.update(singles)
     py2v.DYN_ANY_NAMES.clear()
     py2v.DYN_ANY_NAMES.update(names)
+    emit_dyn(tr, ctors)
+
+
+def add_foreign_dyn(tr, spec: dict) -> None:
+    """The objects of a library the unit does not translate (rdflib's URIRef, BNode, Literal), as the unit's dynamic values:
+    what they are is SPECIFIED here (spec["classes"]: class -> stored values; spec["eq_lower"]: fields compared after
+    lower(); spec["str"]: class -> the field str(x) gives), not read from source.  Trusted like PyPrims.v; compared with
+    the real library by harness/primcheck.py."""
+    ctors = {c: [(f, (tuple(t) if isinstance(t, list) else t), False) for f, t in fs] for c, fs in spec["classes"].items()}
+    py2v.DYN.clear()
+    py2v.DYN.update(ctors)
+    py2v.DYN_SINGLETONS.clear()
+    py2v.DYN_ANY_NAMES.clear()
+    py2v.DYN_ANY_NAMES.update(set(ctors) | set(spec.get("any_names", ())))
+    emit_dyn(tr, ctors, lower={(c, f) for c, f in spec.get("eq_lower", ())}, str_fields=spec.get("str", {}))
+
+
+def emit_dyn(tr, ctors: dict, lower: set = frozenset(), str_fields: dict | None = None) -> None:
     tr.dyn = True
     T = {"str": "K", ("opt", "str"): "(option K)", "any": NAME}
     alts = []
@@ -160,14 +178,17 @@ def add_dyn(tr, repo: Path, spec: dict) -> None:
     tr.out.append(f"Definition opt_obj (x : option {NAME}) : {NAME} := match x with Some v => v | None => O_None end.")
     # a == b: the classes' __eq__ (equal stored values, same class), tuple equality for the NamedTuples, identity for the
     # singletons and None, str equality
-    def feq(t, a, b):
-        return {"str": f"str_eqb {a} {b}", ("opt", "str"): f"match {a}, {b} with Some x_, Some y_ => str_eqb x_ y_ | None, None => true | _, _ => false end",
+    def feq(t, a, b, low=False):
+        cmp_ = "str_eqb (str_lower x_) (str_lower y_)" if low else "str_eqb x_ y_"
+        if low and t != ("opt", "str"):
+            bad(None, "eq_lower on a field that is not an optional string")
+        return {"str": f"str_eqb {a} {b}", ("opt", "str"): f"match {a}, {b} with Some x_, Some y_ => {cmp_} | None, None => true | _, _ => false end",
                 "any": f"obj_eqb {a} {b}"}[t]
     rows_ = []
     for c, fs in ctors.items():
         xs = [f"x{i}" for i in range(len(fs))]
         ys = [f"y{i}" for i in range(len(fs))]
-        conj = " && ".join(f"({feq(t, x, y)})" for (f, t, _), x, y in zip(fs, xs, ys)) or "true"
+        conj = " && ".join(f"({feq(t, x, y, (c, f) in lower)})" for (f, t, _), x, y in zip(fs, xs, ys)) or "true"
         rows_.append(f"| O_{c}" + "".join(" " + x for x in xs) + f", O_{c}" + "".join(" " + y for y in ys) + f" => {conj}")
     rows_ += ["| O_None, O_None => true", "| O_str x0, O_str y0 => str_eqb x0 y0", "| _, _ => false"]
     tr.out.append(f"Fixpoint obj_eqb (a b : {NAME}) {{struct a}} : bool :=\nmatch a, b with\n" + "\n".join(rows_) + "\nend.")
@@ -194,6 +215,15 @@ def add_dyn(tr, repo: Path, spec: dict) -> None:
     tr.out.append(f"Definition obj_items (a : {NAME}) : option (list {NAME}) :=\nmatch a with\n" + "\n".join(irows) + "\nend.")
     tr.out.append(f"Fixpoint obj_items_all (l : list {NAME}) : option (list (list {NAME})) :=\nmatch l with\n| [] => Some []\n| a :: l' =>\n"
                   "match obj_items a, obj_items_all l' with Some x, Some r => Some (x :: r) | _, _ => None end\nend.")
+
+    if str_fields:
+        # str(x): the stored string of the classes that are strings (URIRef, BNode, Literal are str subclasses); of anything else: not modelled
+        srows = []
+        for c, f in str_fields.items():
+            fs = ctors[c]
+            srows.append(f"| O_{c}" + "".join((" s_" if n == f else " _") for n, _, _ in fs) + " => Some s_")
+        srows += ["| O_str s_ => Some s_", "| _ => None"]
+        tr.out.append(f"Definition obj_str (a : {NAME}) : option K :=\nmatch a with\n" + "\n".join(srows) + "\nend.")
 
 
 def classes_with_field(f: str) -> list[str]:
